@@ -15,7 +15,7 @@ for bits, cxx in ((8, 'unsigned char'), (16, 'unsigned short'), (32, 'unsigned i
 job('enc.text', ['C15', 'C11', 'C12'], 'u_enc', 'proofs/enc/text.c', roots={'ENC_TEXT': r'key_encoder::encode_text\(std::span'}, stubs={'ENSURE_AVAILABLE': r'key_encoder::ensure_available\('},
     under_contract=['unodb::key_encoder::encode_text(std::span<const std::byte>)', 'unodb::key_encoder::append_bytes', 'unodb::key_encoder::encode(uint8_t)', 'unodb::key_encoder::encode(uint16_t)'],
     trusted=['memcpy of symbolic length: witness-only pointwise contract (regions checked readable/writable, d[W] = s[W])'],
-    floor=100, timeout=900, mem_gb=16)
+    floor=100, timeout=900, mem_gb=16, cut=['ENC_TEXT/for_2econd'])
 job('enc.ensure_available', ['C12', 'C15', 'C11'], 'u_enc', 'proofs/enc/ensure_available.c', roots={'ENSURE_AVAILABLE': r'key_encoder::ensure_available\('},
     under_contract=['unodb::key_encoder::ensure_available', 'unodb::key_encoder::ensure_capacity', 'unodb::detail::ensure_capacity', 'unodb::detail::allocate_aligned', 'unodb::detail::free_aligned'],
     trusted=['memcpy of symbolic length: witness-only pointwise contract (regions checked readable/writable, d[W] = s[W])'], floor=50, timeout=600)
